@@ -166,3 +166,72 @@ def gcc_conference_create_response(blocks, node_id=31219, tag=1, result=0):
     tail += b"\x00" + b"McDn"
     tail += per_length(len(blocks)) + bytes(blocks)
     return b"\x00" + b"\x05\x00\x14\x7c\x00\x01" + per_length(len(tail)) + bytes(tail)
+
+# ------------------------------------------------------------------ X.691 DECODERS (the inverse direction of C18)
+# Each returns (value, rest) or None, written from the standard like the encoders above.  A decoder accepts every
+# encoding the standard allows a DEcoder to meet: in particular the two-octet length determinant for a small value
+# (X.691 10.9 binds the encoder); it is strict on content (digit alphabet, zero padding bits, OID subidentifiers).
+def per_dec_length(b):
+    if len(b) < 1: return None
+    if b[0] < 0x80: return b[0], b[1:]
+    if len(b) < 2: return None
+    return ((b[0] & 0x7f) << 8) | b[1], b[2:]
+
+def per_dec_integer(b):
+    r = per_dec_length(b)
+    if r is None: return None
+    l, rest = r
+    if l not in (1, 2, 4) or len(rest) < l: return None
+    return int.from_bytes(rest[:l], "big"), rest[l:]
+
+def per_dec_integer_16(lower, b):
+    if len(b) < 2: return None
+    v = lower + int.from_bytes(b[:2], "big")
+    return None if v > 0xffff else (v, b[2:])
+
+def per_dec_oid(b):
+    """arcs of an object identifier (X.690 8.19): first octet 40*arc1+arc2 (arc1 <= 2), then base-128 groups"""
+    r = per_dec_length(b)
+    if r is None: return None
+    l, rest = r
+    if l < 1 or len(rest) < l: return None
+    c, rest = rest[:l], rest[l:]
+    if c[0] >= 0x80: return None                      # only the one-octet first subidentifier, as the encoder above
+    a0 = 0 if c[0] < 40 else 1 if c[0] < 80 else 2
+    arcs = [a0, c[0] - 40 * a0]
+    acc = None
+    for x in c[1:]:
+        if acc is None and x == 0x80: return None     # 8.19.2: no leading 0x80
+        acc = (acc or 0) * 128 + (x & 0x7f)
+        if x < 0x80: arcs.append(acc); acc = None
+    if acc is not None: return None
+    return arcs, rest
+
+def per_dec_octet_string(lower, b):
+    r = per_dec_length(b)
+    if r is None: return None
+    l, rest = r
+    n = l + lower
+    return None if len(rest) < n else (bytes(rest[:n]), rest[n:])
+
+def per_dec_numeric_string(lower, b):
+    r = per_dec_length(b)
+    if r is None: return None
+    l, rest = r
+    n = l + lower
+    k = (n + 1) // 2
+    if len(rest) < k: return None
+    out = bytearray()
+    for i in range(n):
+        x = rest[i // 2]
+        d = (x >> 4) if i % 2 == 0 else (x & 15)
+        if d > 9: return None
+        out.append(0x30 + d)
+    if n % 2 and rest[k - 1] & 15: return None        # padding bits are zero
+    return bytes(out), rest[k:]
+
+# ------------------------------------------------------------------ BER variants of a DER encoding (for the lenient reader)
+def ber_long_len(n, extra=1):
+    """a non-minimal long-form definite length (valid BER, not DER)"""
+    b = n.to_bytes(max(1, (n.bit_length() + 7) // 8) + extra, "big") if extra else n.to_bytes(max(1, (n.bit_length() + 7) // 8), "big")
+    return bytes([0x80 | len(b)]) + b
